@@ -35,8 +35,12 @@ def check_block_header_proof(root_cell: "Cell", block_hash: bytes, store_state_h
     if root_hash != block_hash:
         raise ProofError('Block header proof error: hashes unmatch')
     if store_state_hash:
-        state_update = root_cell[2][1]
-        return state_update.get_hash(0)
+        state_update = root_cell[2]
+        if state_update.type_ != CellTypes.merkle_update:
+            raise ProofError('Block header proof error: invalid Merkle update in block')
+        # new_hash of the Merkle update: part of the cell data the block hash commits to
+        # (the level 0 hash of its second child is not: a pruned branch of a higher level may carry any value there)
+        return state_update.data[33:65]
     return
 
 
